@@ -201,6 +201,20 @@ func init() {
 		"encoding/json.Unmarshal":                                          havocAllCall,
 		"gopkg.in/yaml.v2.Unmarshal":                                       havocAllCall,
 		"gopkg.in/yaml.v2.UnmarshalStrict":                                 havocAllCall,
+		// errors.Join(errs...): nil exactly when every argument is nil (library contract)
+		"errors.Join": func(fr *Frame, st *State, a []Val, in ssa.Instruction) Val {
+			u := fr.u
+			r := u.enc.freshConst("joined", "Int")
+			u.assume(app(">=", r, "0"))
+			h := u.arrHeap(types.Universe.Lookup("error").Type())
+			row := sel(u.heapCur(st, h), app("sl_base", a[0].T))
+			j := fmt.Sprintf("j!%d", u.enc.fresh)
+			u.enc.fresh++
+			allNil := fmt.Sprintf("(forall ((%s Int)) (=> (and (<= 0 %s) (< %s (sl_len %s))) (= (select %s (ix (sl_off %s) %s)) 0)))", j, j, j, a[0].T, row, a[0].T, j)
+			u.assumeG(st, eq(eq(r, "0"), allNil))
+			u.note("errors.Join: assumed contract of the library: the result is nil exactly when every argument is nil")
+			return Val{T: r, S: "Int", Ty: types.Universe.Lookup("error").Type()}
+		},
 		"errors.New":  freshErr,
 		"fmt.Errorf":  freshErr,
 		"errors.Is": func(fr *Frame, st *State, a []Val, _ ssa.Instruction) Val {
